@@ -89,36 +89,50 @@ func (s *Schema) RemoveRel(typ string, rel string) {
 // The types must already exist in the schema.
 func (s *Schema) AddTwoWayRel(rel Rel) error {
 	rel1 := rel.Normalize()
-	rel2 := rel.Invert()
-	found1 := false
-	found2 := false
+	rel2 := rel1.Invert()
 
-	for i := range s.Types {
-		if s.Types[i].Name == rel1.FromType {
-			found1 = true
+	typ1 := s.typePtr(rel1.FromType)
+	typ2 := s.typePtr(rel2.FromType)
 
-			err := s.Types[i].AddRel(rel1)
-			if err != nil {
-				return err
-			}
-		} else if s.Types[i].Name == rel2.FromType {
-			found2 = true
-
-			err := s.Types[i].AddRel(rel2)
-			if err != nil {
-				return err
-			}
+	// Validate both sides before modifying anything.
+	if typ1 != nil {
+		if err := typ1.checkRel(rel1); err != nil {
+			return err
 		}
 	}
 
-	if found1 && found2 {
-		return nil
+	if typ2 != nil {
+		if err := typ2.checkRel(rel2); err != nil {
+			return err
+		}
 	}
 
-	return fmt.Errorf(
-		"jsonapi: types %q and %q must exist",
-		rel1.FromType, rel2.FromType,
-	)
+	if typ1 == nil || typ2 == nil {
+		return fmt.Errorf(
+			"jsonapi: types %q and %q must exist",
+			rel1.FromType, rel2.FromType,
+		)
+	}
+
+	if typ1 == typ2 && rel1.FromName == rel2.FromName {
+		return fmt.Errorf("jsonapi: relationship name %q is already used", rel1.FromName)
+	}
+
+	_ = typ1.AddRel(rel1)
+	_ = typ2.AddRel(rel2)
+
+	return nil
+}
+
+// typePtr returns a pointer to the first type with the given name, or nil.
+func (s *Schema) typePtr(name string) *Type {
+	for i := range s.Types {
+		if s.Types[i].Name == name {
+			return &s.Types[i]
+		}
+	}
+
+	return nil
 }
 
 // Rels returns all the relationships from the schema's types. For two-way
